@@ -125,11 +125,14 @@ CLAIMS = {'C07': {'technique': 'structural sequencing/dominance obligations on t
                       'recalculate_rings / ring0 (bounded state, labelled bounded); replay search on the real crate',
          'text': 'remove_member, add_member (an older or equal identity changes nothing; a newer one replaces address, timestamp and cluster id and re-indexes '
                  "the address; an unknown peer is listed as announced; other members' identities and address-index entries untouched), add_rtt's sample, MemberState::new and is_ring0 "
-                 'are proved unbounded in Verus against the newest-identity statement. recalculate_rings and ring0 are closure/iterator chains Verus cannot '
+                 'are proved unbounded in Verus against the newest-identity statement, and a machine-checked induction over those two contracts (lemma_follows) '
+                 'gives the whole-history statement: after any notification sequence the SWIM layer can emit (premises explicit) a peer is listed iff an up of '
+                 'its newest identity is not followed by a down of it, with that identity and an announcing up\'s address and cluster. recalculate_rings and ring0 are closure/iterator chains Verus cannot '
                  'take; they (and add_member again, with its address-index invariant) are checked by Kani as inductive steps from an arbitrary state with <=2 '
                  'members (history length unbounded, state size bounded) and are reported as bounded stand-ins, not as proved.',
          'note': 'Assumed: std BTreeMap contract; Kani unit replaces BTreeMap/CircularBuffer/ActorId/SocketAddr/Timestamp by small stand-ins (listed in '
-                 "evidence). SWIM premise: live peers do not share an address; down notifications carry the identity's own address."},
+                 "evidence). SWIM premises: live peers do not share an address; down notifications carry the identity's own address; an up is never older "
+                 "than an identity already reported down; a down is about an identity reported up before; the table starts empty."},
  'C12': {'technique': 'Verus function contracts on the extracted real klukai-client SubscriptionStream::{handle_change,handle_eoq} + verified driver '
                       '(inductive consecutive-ids statement); Verus contracts with loop invariants on two anchored fragments of the real server-side '
                       'catch_up_sub (catch-up retry loop, hand-over to the buffered live events); structural obligations on the lag/overflow exits',
